@@ -17,11 +17,14 @@ import (
 func init() { extraOps["purity"] = opPurity }
 
 type purityItem struct {
-	Path     string        `json:"path"`     // schema file on disk (imports resolved relative to it)
+	Path     string        `json:"path"`          // schema file on disk (imports resolved relative to it)
 	Settings []genSettings `json:"settings_list"` // option sets for Generate
-	Seq      int           `json:"seq"`      // sequential repetitions
-	G        int           `json:"g"`        // goroutines
-	R        int           `json:"r"`        // repetitions per goroutine
+	Seq      int           `json:"seq"`           // sequential repetitions
+	G        int           `json:"g"`             // goroutines
+	R        int           `json:"r"`             // repetitions per goroutine
+	// Texts (hex) are further inputs for ReadFile and Format only: malformed and unusual
+	// texts, whose results (error text included) must be as repeatable as any other
+	Texts []string `json:"texts"`
 }
 
 type callRec struct {
@@ -79,6 +82,27 @@ func opPurity(_ rfItem, raw json.RawMessage, e *core.Emitter) any {
 		jw, _ := json.Marshal(w)
 		return "ReadFile", append(j, jw...), err
 	})
+	for i, hx := range it.Texts {
+		tx, _ := hex.DecodeString(hx)
+		i := i
+		withErr := func(b []byte, err error) []byte {
+			if err != nil {
+				return append(b, []byte("\x00error: "+err.Error())...)
+			}
+			return b
+		}
+		ops = append(ops, func() (string, []byte, error) {
+			var b bytes.Buffer
+			err := bebop.Format(bytes.NewReader(tx), &b)
+			return fmt.Sprintf("Format!text%d", i), withErr(b.Bytes(), err), err
+		})
+		ops = append(ops, func() (string, []byte, error) {
+			g, w, err := bebop.ReadFile(bytes.NewReader(tx))
+			j, _ := json.Marshal(g)
+			jw, _ := json.Marshal(w)
+			return fmt.Sprintf("ReadFile!text%d", i), withErr(append(j, jw...), err), err
+		})
+	}
 	var mu sync.Mutex
 	var recs []callRec
 	run := func(g int, op func() (string, []byte, error)) (out string) {
